@@ -481,12 +481,12 @@ impl HalfConnection {
         let sr = self.send_rate_comp.verif_probe();
         let o = |v: Option<u64>| v.map_or(String::from("-"), |x| x.to_string());
         let pb = self.packet_sender.verif_bytes();
-        format!("fa={} fid={} nowms={} sync={} sr={} | ps={},{},{},{},{},{},{} pb={},{},{} pend={} rs={} | fq={},{},{},{},{},{},{} | pr={},{},{},{},{},{},{:x},{} aq={},{} | rate={},{},{},{},{},{},{},{},{},{}",
+        format!("fa={} fid={} nowms={} sync={} sr={} | ps={},{},{},{},{},{},{} pb={},{},{} pend={} rs={} | fq={},{},{},{},{},{},{} | pr={},{},{},{},{},{},{:x},{} aq={},{} | rate={},{},{},{},{},{},{},{},{},{},{}",
             self.flush_alloc, self.flush_id, self.now_ms, self.sync_timeout_base_ms, self.sync_reply as u8,
             ps.0, ps.1, ps.2, ps.3, ps.4, ps.5, ps.6, pb.0, pb.1, pb.2, self.pending_queue.len(), self.resend_queue.len(),
             fq.0, fq.1, fq.2, fq.3, fq.4 as u8, fq.5, fq.6 as u8,
             pr.0, pr.1, pr.2, pr.3, pr.4, pr.5, pr.6, pr.7 as u8, self.frame_ack_queue.base_id(), self.frame_ack_queue.verif_len(),
-            sr.0, sr.1, sr.2, sr.3, o(sr.4), sr.5 as u8, o(sr.6), o(sr.7), o(sr.8), sr.9)
+            sr.0, sr.1, sr.2, sr.3, o(sr.4), sr.5 as u8, o(sr.6), o(sr.7), o(sr.8), sr.9, sr.10)
     }
 }
 
